@@ -950,7 +950,9 @@ def well_devs(dev, where, fmt, sel, p, s, exp_rows, tok_rows):
             sstep = 1 if sel[1] >= n else n // sel[1]
         wrong = lis_index_estimate(p)[1] * fac * sstep
         pa, pb = printed_x(tok_rows, 0), printed_x(tok_rows, -1)
-        if within(tok, wrong, 4 * EPS * abs(wrong)):
+        # (the known form describes rows that ARE the selector's stride apart; rows written at another stride are another matter)
+        strides = {b - a for a, b in zip(exp_rows, exp_rows[1:])}
+        if within(tok, wrong, 4 * EPS * abs(wrong)) and strides <= {sstep}:
             sig = SIG_LIS_WHOLE
         elif p['implied_x'] and pa is not None and pb is not None:
             w2 = (pb.value - pa.value) * fac / (len(exp_rows) - 1)
